@@ -395,7 +395,7 @@ BASE_OPTS = {"world": {"base_scenario": True, "n_veh": [3, 6]}, "hist": {"p_inst
 BASE_BUDGET = {"quick": (96, 30), "thorough": (2000, 50)}
 
 
-QUEUERUN_BUDGET = {"quick": 320, "thorough": 16000}
+QUEUERUN_BUDGET = {"quick": 320, "thorough": 4800}
 
 
 @register("C18")
